@@ -96,12 +96,8 @@ func zzDispatcher(more int, window bool) {
 	}
 	vSettle(30)
 	s.Lock()
-	clientCh, stillRegistered := s.clients[0]
+	_, stillRegistered := s.clients[0]
 	current := s.assignments
-	// The engine models the unbuffered hand-off channel with one slot: a map may sit in the slot, already "sent" by
-	// the dispatcher and not yet taken by the client goroutine — in Go the receiver would be committed to it. Such a
-	// state is not quiescent; natively len() of an unbuffered channel is always 0.
-	inFlight := stillRegistered && len(clientCh) > 0
 	s.Unlock()
 	cancel()
 	<-regDone
@@ -120,9 +116,7 @@ func zzDispatcher(more int, window bool) {
 		last = idx
 	}
 	if stillRegistered {
-		if !inFlight {
-			vAssert("a-client-that-stays-registered-has-the-current-map", last == len(pushed)-1)
-		}
+		vAssert("a-client-that-stays-registered-has-the-current-map", last == len(pushed)-1)
 		vReach("client-kept-up")
 	} else {
 		vReach("client-cut-off")
